@@ -75,6 +75,46 @@ CLAIMED["C13"] = (
     "Trusted: Coq kernel + vm_compute; tools/gentables.py translator; grouping observed at parse level (evaluation of a given tree is C12).",
     "DESIGN.md 4 C13")
 
+ENG_NOTE = ("Trusted: Coq kernel + vm_compute (primitive floats for numeric label filters); the hand-written stage/engine model, tied to the code only by the correspondence run; "
+            "library oracles: regexp as the Brzozowski matcher of Base/Regex.v on its ASCII fragment, jx/go-logfmt/FindStringSubmatch/ANSI-strip results supplied per line by the generator, "
+            "ParseFloat on the <=15-digit fragment, durations/bytes/IPv4 transliterated; cases outside a fragment are counted (outside_model_fragment) and compared on the property only; "
+            "the mock storage of the harness; __error_details__ texts masked.")
+CLAIMED["C01"] = (
+    "Coq proof (induction over records and stages; refinement of the iterator loop + offload split to a per-record comprehension) + differential correspondence Engine.Eval vs model under five capability sets per case",
+    "Theorems eval_log_caps_indep (whatever is computed with nothing offloaded is computed under EVERY capability set, any limit, incl. distinct), eval_log_exact (distinct-free: the result is spec_select, each "
+    "record's own contribution in delivery order), result_is_comprehension / result_sound_complete (every matching record once, nothing else), match_preserves (timestamp; line unless a rewriting stage), and the refutation "
+    "of the pre-fix offloading rule (D12). Tied to /repo by evaluating generated queries (all stage kinds) over generated records through Engine.Eval on a capability-honouring mock storage under the four extreme capability sets "
+    "and a random one; the observed results must agree with each other, with the per-record spec and with the faithful model.",
+    ENG_NOTE + " Mixed and/or without parentheses nests to the right in this parser (a and b or c = a and (b or c)); the spec follows the parser here and DESIGN.md says so.",
+    "DESIGN.md 4 C01")
+CLAIMED["C19"] = (
+    "Coq proof (one central lemma: appending a filter stage filters the result; list-filter algebra; lifted to the engine under every capability set) + metamorphic correspondence on families of related queries",
+    "Theorems filter_sub, neg_partition (|= / !=, |~ / !~, label = / !=, =~ / !~: disjoint parts whose union is q's result, as a Permutation), filters_commute, filter_idempotent, and_inter_or_union (with the inclusion-exclusion "
+    "count), empty_needle_id, for any distinct-free query q, any needle, any regex matcher, any oracle tables. The check evaluates the family q, q|f, q|not f, q|f|g, q|g|f, q|f|f, q|a, q|b, q|a and b, q|a or b, q|=\"\" on the real engine "
+    "and verifies the relations on the OBSERVED results as well as equality with the model.",
+    ENG_NOTE, "DESIGN.md 4 C19")
+CLAIMED["C08"] = (
+    "Coq proof (fold invariant of groupEntries: key uniqueness, per-key content, count; insertion-sort lemmas; limit as a prefix by induction over the iteration) + differential correspondence with limits",
+    "Theorems streams_nodup, stream_content (a stream holds exactly the entries of its label set, sorted, never empty), entry_placed, count_conserved, limit_prefix (positive limit = first min(L,N) entries of the unlimited answer, "
+    "every capability set, every pipeline), nonpositive_limit_all, result_time_ordered (for a storage delivering in time order). The check evaluates each query with limits {-5,-1,0,1,2,N-1,N,N+1,100} incl. label values that "
+    "imitate the rendering of other labels (the grouping key is LabelSet.String) and verifies shape, prefix and equality with the model. PARTIAL: injectivity of the textual grouping key (strconv.Quote) is not a theorem; it is "
+    "exercised by the key-collision inputs.",
+    ENG_NOTE, "DESIGN.md 4 C08")
+CLAIMED["C07"] = (
+    "Coq proof (finite-map laws on sorted association lists; per-stage semantics lemmas) + differential correspondence with generator-computed expected line and full label set of every entry",
+    "Theorems rename_present / rename_absent / rename_self (+ refutation of the pre-fix self-rename, D20), label_tmpl_sem / label_tmpl_fail, line_format_sem, template_bindings (__line__, __timestamp__, .label), template_concat, "
+    "selected_iff / drop_sem / keep_sem (+ refutation of the pre-fix conjunction rule, D25), decolorize_plain / decolorize_sem, rewriter_keeps. The check runs each stage (and chains) on the real engine and demands, per entry, the "
+    "expected line and the expected complete label set computed by the generator from the LogQL reading, and count = N.",
+    ENG_NOTE + " Templates: the subset text/.label/__line__/__timestamp__|unixEpochNanos/ToUpper/ToLower/unixToTime; ANSI stripping is an oracle (decolorize_sem is conditional on it).",
+    "DESIGN.md 4 C07")
+CLAIMED["C06"] = (
+    "Coq proof (last-binding characterisation of folding fields into a label set; case analysis of every parser stage) + differential correspondence with generator-computed expected label sets",
+    "Theorems stage_keeps_line (all five parser stages never drop; only unpack may replace the line, by _entry), json_all_exposes / json_some_only / logfmt_exposes (every field exposed with exactly its value, last duplicate wins, "
+    "existing label overridden, nothing else touched), *_unparsable_flagged, error_label_set / first_error_wins, pattern_two_captures / capture_is_first_occurrence. The check renders documents (JSON incl. nested/duplicate/escaped/"
+    "malformed, logfmt, packed entries, delimiter-separated lines) and demands count = N, unchanged lines and the complete expected label set of every entry. PARTIAL: jsonexpr path parsing and the regexp stage's submatch are "
+    "compared with the model only (oracle), no theorem.",
+    ENG_NOTE, "DESIGN.md 4 C06")
+
 REASON_PENDING = "check not built yet in this round; planned (see DESIGN.md section 4/8) - no claim is made until the proof and correspondence exist"
 
 def main():
